@@ -158,9 +158,9 @@ def statement_pool(chk, rnd):
     d2 = [s for s in g.statements(2, False) if s['t'] == 'set' or s['l']['t'] == 'ref' and s['l']['l']['t'] != 'table']
     rich = g.statements(1, True)
     if chk.quick:
-        picks = d1[::29] + d2[::37] + rnd.sample(rich, 25) + [g.random_statement(rnd, 3) for _ in range(12)]
+        picks = d1[::29] + d2[::37] + rnd.sample(rich, 25) + [g.random_statement(rnd, 2) for _ in range(8)]
     else:
-        picks = d1[::6] + d2[::8] + rnd.sample(rich, 300) + [g.random_statement(rnd, 3) for _ in range(150)]
+        picks = d1[::8] + d2[::10] + rnd.sample(rich, 200) + [g.random_statement(rnd, 3) for _ in range(60)]
     # statements seeded with the literal values known to collide
     A = g.TABLES['A']
     ai, af = g.col(A, 'i'), g.col(A, 'f')
